@@ -621,8 +621,15 @@ def run(chk):
 
     shrunk = {}
 
+    known_keys = {k.get("key") for k in chk.known}
+
     def explore(nf0, ops, stream):
+        n_model = len(lines)
         found, changed = run_history(nf0, ops, stream)
+        if found is not None and found[0] in known_keys:
+            # a recorded finding: the model follows the specified behaviour there, the implementation knowingly does not
+            del lines[n_model:], expect[n_model:], info[n_model:]
+            chk.count("tie-skipped-known-finding")
         canon = json.dumps([nf0, ops], sort_keys=True)
         nontrivial = changed >= (1 if len(ops) == 1 else 2)
         chk.case(canon, nontrivial)
@@ -662,7 +669,7 @@ def run(chk):
     chk.exhaustive = False
 
     # ---- random single operations ----
-    n_single = 4000 if not thorough else 60000
+    n_single = 12000 if not thorough else 150000
     streams = ["plain"] * 7 + ["star"] * 2 + ["dup"]
     for _ in range(n_single):
         stream = rng.choice(streams)
@@ -679,7 +686,7 @@ def run(chk):
         run_history(nf0, [op], "dup")
         chk.count("malformed-empty-pattern")
     # ---- histories ----
-    n_hist = 1500 if not thorough else 20000
+    n_hist = 5000 if not thorough else 60000
     for _ in range(n_hist):
         stream = rng.choice(streams)
         nf0 = gen_matrix(rng, stream)
@@ -702,7 +709,7 @@ def run(chk):
             for lp in range(0, 4 if not thorough else 5):
                 for pat in itertools.product("ab*?", repeat=lp):
                     pairs.append(("".join(pat), "".join(name)))
-    for _ in range(3000 if not thorough else 40000):
+    for _ in range(6000 if not thorough else 60000):
         name = "".join(rng.choice("abc\n*?") for _ in range(rng.randrange(0, 8)))
         pat = "".join(rng.choice("aabbc*?") for _ in range(rng.randrange(0, 7)))
         pairs.append((pat, name))
